@@ -173,12 +173,14 @@ void ldb_buffer_append(ldb_buffer_t *z, const uint8_t *xp, size_t xn) {
 
 ldb_comparator_t g_cmp;      /* the iterator's comparator */
 ldb_comparator_t g_ucmp;     /* its user comparator when it is an internal-key comparator */
+int g_cmp_calls, g_last_cmp; const ldb_slice_t *g_last_x, *g_last_y;   /* the most recent comparison */
 #define SLICE_READABLE(x) ((x)->size == 0 || (x)->data == g_keystore || __CPROVER_r_ok((x)->data, (x)->size))
 static int stub_compare(const ldb_comparator_t *c, const ldb_slice_t *x, const ldb_slice_t *y) {
   __CPROVER_assert(c == &g_cmp, "comparator: called with the iterator's comparator");
   __CPROVER_assert(SLICE_READABLE(x), "comparator: left operand is a readable slice");
   __CPROVER_assert(SLICE_READABLE(y), "comparator: right operand is a readable slice");
-  return nondet_int();
+  g_cmp_calls++; g_last_x = x; g_last_y = y; g_last_cmp = nondet_int();
+  return g_last_cmp;
 }
 
 /* ---- representation invariant of ldb_blockiter_t (over arbitrary block bytes) ----
@@ -443,13 +445,89 @@ __CPROVER_assigns(IT_ASSIGNS(iter))
 __CPROVER_ensures(iter->current >= iter->restarts || __CPROVER_pointer_in_range_dfcc(iter->data, iter->value.data, iter->data + iter->restarts))
 __CPROVER_ensures(IT_RI(iter))
 __CPROVER_ensures(IT_INVALID_OUTCOME(iter))
-/* a valid result starts at or after a restart point that lies strictly before the entry we came from */
-__CPROVER_ensures(!(iter->current < iter->restarts) || (IT_RESTART(iter, iter->restart_index) <= iter->current && iter->status == __CPROVER_old(iter->status)))
+/* a valid result leaves the status alone */
+__CPROVER_ensures(!(iter->current < iter->restarts) || iter->status == __CPROVER_old(iter->status))
+/* no restart point before the entry we came from: invalid ("before the first entry"), nothing latched */
+__CPROVER_ensures(iter->current < iter->restarts || IT_IS_CORRUPT(iter) || iter->status == __CPROVER_old(iter->status))
 ;
 void h_blockiter_prev(void) {
   MK_ITER(it);
   ASSUME(IT_RI(&it) && in_current < in_restarts);
   ldb_blockiter_prev(&it);
   CHECK(ldb_blockiter_valid(&it) || it.status == LDB_CORRUPTION || it.status == in_status, "prev: invalid only at corruption or before the first entry");
+  CANARY();
+}
+
+/* ============================================================== blk.create
+ * ldb_blockiter_create / ldb_blockiter_init.  Environment: ldb_malloc never
+ * returns NULL (util/internal.c aborts instead); ldb_emptyiter_create and
+ * ldb_iter_create (table/iterator.c) are stubs that record their arguments. */
+void *ldb_malloc(size_t size) { void *p = malloc(size); __CPROVER_assume(p != NULL); return p; }
+ldb_iter_t g_iter_empty, g_iter_block;
+int g_empty_calls, g_empty_status, g_ic_calls;
+void *g_ic_ptr; const ldb_itertbl_t *g_ic_table; const ldb_comparator_t *g_ic_cmp;
+ldb_iter_t *ldb_emptyiter_create(int status) { g_empty_calls++; g_empty_status = status; return &g_iter_empty; }
+ldb_iter_t *ldb_iter_create(void *ptr, const ldb_itertbl_t *table, const ldb_comparator_t *cmp) {
+  g_ic_calls++; g_ic_ptr = ptr; g_ic_table = table; g_ic_cmp = cmp; return &g_iter_block;
+}
+#define CREATED_IT ((ldb_blockiter_t *)g_ic_ptr)
+
+ldb_iter_t *c_blockiter_create(const ldb_block_t *block, const ldb_comparator_t *comparator)
+__CPROVER_requires(__CPROVER_r_ok(block, sizeof(*block)) && block->size <= 0xffffffffu && BLK_RI(block))
+__CPROVER_requires(block->size == 0 || __CPROVER_r_ok(block->data, block->size))
+__CPROVER_requires(g_empty_calls == 0 && g_ic_calls == 0)
+__CPROVER_assigns(g_empty_calls, g_empty_status, g_ic_calls, g_ic_ptr, g_ic_table, g_ic_cmp)
+/* error marker (or any block too short for a trailer): an empty iterator that reports corruption */
+__CPROVER_ensures(!(block->size < 4) || (__CPROVER_return_value == &g_iter_empty && g_empty_calls == 1 && g_empty_status == LDB_CORRUPTION && g_ic_calls == 0))
+/* zero restart points: an empty iterator with OK status */
+__CPROVER_ensures(!(block->size >= 4 && BLK_NRESTARTS(block->data, block->size) == 0) ||
+                  (__CPROVER_return_value == &g_iter_empty && g_empty_calls == 1 && g_empty_status == LDB_OK && g_ic_calls == 0))
+/* otherwise a block iterator over exactly this block, not yet positioned, satisfying the iterator invariant */
+__CPROVER_ensures(!(block->size >= 4 && BLK_NRESTARTS(block->data, block->size) != 0) ||
+                  (__CPROVER_return_value == &g_iter_block && g_empty_calls == 0 && g_ic_calls == 1 && g_ic_table == &ldb_blockiter_table && g_ic_cmp == comparator &&
+                   CREATED_IT->comparator == comparator && CREATED_IT->data == block->data && CREATED_IT->restarts == block->restart_offset &&
+                   CREATED_IT->num_restarts == BLK_NRESTARTS(block->data, block->size) &&
+                   (uint64_t)CREATED_IT->restarts + 4 * (uint64_t)CREATED_IT->num_restarts + 4 == (uint64_t)block->size &&
+                   CREATED_IT->current == CREATED_IT->restarts && CREATED_IT->restart_index == CREATED_IT->num_restarts &&
+                   CREATED_IT->key.data == NULL && CREATED_IT->key.size == 0 && CREATED_IT->key.alloc == 0 &&
+                   CREATED_IT->value.data == NULL && CREATED_IT->value.size == 0 && CREATED_IT->status == LDB_OK))
+;
+
+void h_blockiter_create(void) {
+  ldb_block_t b; ldb_iter_t *r;
+  IN_SIZE(in_n); IN_SIZE(in_size); IN_U32(in_ro); IN_INT(in_owned);
+  IN_BUF(buf, in_n);
+  ASSUME(in_n <= 0xffffffffu && (in_size == in_n || in_size == 0));   /* size = 0 is the error marker of ldb_block_init */
+  b.data = buf; b.size = in_size; b.restart_offset = in_ro; b.owned = in_owned;
+  ASSUME(BLK_RI(&b));
+  g_empty_calls = 0; g_ic_calls = 0; g_ic_ptr = NULL; g_ic_table = NULL; g_ic_cmp = NULL; g_empty_status = -1;
+  r = ldb_blockiter_create(&b, &g_cmp);
+  CHECK(r == &g_iter_empty || r == &g_iter_block, "blockiter_create: returns the empty iterator or a block iterator");
+  CHECK(r != &g_iter_block || !ldb_blockiter_valid(CREATED_IT), "blockiter_create: a fresh block iterator is not positioned");
+  CANARY();
+}
+
+/* ---- seek ---- */
+void c_blockiter_seek(ldb_blockiter_t *iter, const ldb_slice_t *target)
+__CPROVER_requires(__CPROVER_rw_ok(iter, sizeof(*iter)) && IT_RI(iter) && __CPROVER_r_ok(target, sizeof(*target)) && SLICE_READABLE(target))
+__CPROVER_requires(g_cmp_calls == 0)
+__CPROVER_assigns(IT_ASSIGNS(iter), g_cmp_calls, g_last_cmp, g_last_x, g_last_y)
+__CPROVER_ensures(iter->current >= iter->restarts || __CPROVER_pointer_in_range_dfcc(iter->data, iter->value.data, iter->data + iter->restarts))
+__CPROVER_ensures(IT_RI(iter))
+__CPROVER_ensures(IT_INVALID_OUTCOME(iter))
+/* an internal-key iterator rejects a target without the 8-byte trailer */
+__CPROVER_ensures(!(iter->comparator->user_comparator != NULL && target->size < 8) || IT_IS_CORRUPT(iter))
+/* a valid result: the last thing seek did was to compare the current key with the target, and it was >= target */
+__CPROVER_ensures(!(iter->current < iter->restarts) || (g_cmp_calls > 0 && g_last_x == &iter->key && g_last_y == target && g_last_cmp >= 0 &&
+                  iter->status == __CPROVER_old(iter->status)))
+;
+void h_blockiter_seek(void) {
+  MK_ITER(it);
+  ldb_slice_t t; IN_SIZE(in_tn); IN_BUF(tbuf, in_tn);
+  ASSUME(IT_RI(&it));
+  t.data = tbuf; t.size = in_tn; t.alloc = 0;
+  g_cmp_calls = 0; g_last_cmp = 0; g_last_x = NULL; g_last_y = NULL;
+  ldb_blockiter_seek(&it, &t);
+  CHECK(ldb_blockiter_valid(&it) || it.status == LDB_CORRUPTION || it.status == in_status, "seek: invalid only at corruption or past the last entry");
   CANARY();
 }
